@@ -9,9 +9,14 @@ import (
 // VH_C11c_mem: ranged GET end to end on the memory backend. The header is
 // built from free decimal digits so that starts/ends below, at and beyond the
 // object size are all inside the bound.
-func VH_C11c_mem() {
-	h, _ := newMemServer()
-	vsym.Assert(Do(h, Req{Method: "PUT", Path: "/bkt"}).Code() == 200, "C11c/create-bucket")
+func VH_C11c_mem() { c11cScenario(kindMem) }
+
+// VH_C11c: the same on the backend tier selected by "backend".
+func VH_C11c() { c11cScenario(backendKind()) }
+
+func c11cScenario(kind int) {
+	h, _ := newServerKind(kind)
+	mkBucket(h, kind, "C11c")
 	n := vsym.Choice("len", vsym.Param("maxbody", 3)+1)
 	body := vsym.Bytes("body", n)
 	vsym.Assert(Do(h, BodyReq("PUT", "/bkt/k", nil, body)).Code() == 200, "C11c/put")
